@@ -197,6 +197,62 @@ def r24_4(ctx, rep):
                  "a float literal of an equation is printed through a lossy conversion, so the generated residual differs numerically from lhs - rhs")
 
 
+@SPEC.rule(
+    "R24.5",
+    "the reserved-name table protects what the generated module needs: BUILTINS is built from the `builtins` MODULE "
+    "(`dir(__builtins__)` lists dict methods in an imported module, protecting nothing), contains Python's keywords "
+    "(keyword.kwlist) and every name the module template itself imports or binds (self, sympy, mech, OdeModel, sin, ...): "
+    "a Modelica variable with one of those names would otherwise shadow it or make the module invalid Python",
+)
+def r24_5(ctx, rep):
+    import re
+    R = "R24.5"
+    v = ctx.module_assign(SYM, "BUILTINS", R)
+    site = SYM + ":BUILTINS"
+    parts = []
+
+    def flat(e):
+        if isinstance(e, ast.BinOp) and isinstance(e.op, ast.Add):
+            flat(e.left)
+            flat(e.right)
+        else:
+            parts.append(e)
+
+    flat(v)
+    texts = [norm(p_) for p_ in parts]
+    rep.ob(R, site, "builtins from the builtins module", "dir(builtins)" in texts and not any("__builtins__" in t for t in texts),
+           "BUILTINS = %s: `__builtins__` is a dict in an imported module, so abs, min, max, sum, ... are not protected" % norm(v)[:80])
+    rep.ob(R, site, "python keywords reserved", any(t in ("keyword.kwlist", "list(keyword.kwlist)") for t in texts),
+           "a variable named lambda / def / pass / is makes the generated module a SyntaxError; keyword.kwlist must be part of the table")
+    lit = set()
+    for p_ in parts:
+        l = literal(p_)
+        if isinstance(l, (list, tuple, set)):
+            lit |= set(l)
+    # names bound by the module template
+    fn = ctx.func(SYM, "SympyGenerator.exitTree", R)
+    need = {"self"}
+    for c in ast.walk(fn):
+        if isinstance(c, ast.Constant) and isinstance(c.value, str) and "import" in c.value:
+            for line in c.value.splitlines():
+                line = line.strip()
+                m = re.match(r"^import\s+([\w.]+)(?:\s+as\s+(\w+))?$", line)
+                if m:
+                    need.add(m.group(2) or m.group(1).split(".")[0])
+                m = re.match(r"^from\s+[\w.]+\s+import\s+(.+)$", line)
+                if m and not line.startswith("from __future__"):
+                    for nm in m.group(1).split(","):
+                        nm = nm.strip().split(" as ")[-1].strip()
+                        if nm.isidentifier():
+                            need.add(nm)
+    if len(need) < 4:
+        raise MechanismMissing(R, "import lines of the generated module template not found in exitTree")
+    import builtins as _b
+    missing = sorted(n for n in need if n not in lit and not hasattr(_b, n))
+    rep.ob(R, site, "names bound by the module template are reserved", not missing,
+           "the generated module binds %s itself; a Modelica variable of that name is emitted unchanged and shadows it (missing from BUILTINS: %s)" % (sorted(need), missing))
+
+
 # -- seeded variants ---------------------------------------------------------
 from ._mut import replace_in_func  # noqa: E402
 
@@ -247,3 +303,14 @@ def _m_lit(mod):
         return False
 
     return mod if replace_in_func(mod, "SympyGenerator.exitPrimary", edit) else None
+
+
+@SPEC.mutant("reserved names from dir(__builtins__)", SYM, "R24.5", "builtins")
+def _m_builtins(mod):
+    for st in mod.body:
+        if isinstance(st, ast.Assign) and is_name(st.targets[0], "BUILTINS"):
+            for n in ast.walk(st.value):
+                if isinstance(n, ast.Call) and is_name(n.func, "dir") and n.args and is_name(n.args[0], "builtins"):
+                    n.args[0] = ast.Name(id="__builtins__", ctx=ast.Load())
+                    return mod
+    return None
